@@ -174,7 +174,7 @@ func execC12Nginx(t *hx.Toks) string {
 	if t.Err != nil || !t.Done() {
 		return "bad-case"
 	}
-	d, err := decoder.NewNginxErrorDecoder(decoder.Params{"nginx_with_custom_fields": custom})
+	d, err := c12New(decoder.NGINX_ERROR, decoder.Params{"nginx_with_custom_fields": custom})
 	if err != nil {
 		return "bad-case"
 	}
@@ -209,9 +209,9 @@ func execC12Syslog(t *hx.Toks, rfc5424 bool) string {
 	var d decoder.Decoder
 	var err error
 	if rfc5424 {
-		d, err = decoder.NewSyslogRFC5424Decoder(params)
+		d, err = c12New(decoder.SYSLOG_RFC5424, params)
 	} else {
-		d, err = decoder.NewSyslogRFC3164Decoder(params)
+		d, err = c12New(decoder.SYSLOG_RFC3164, params)
 	}
 	if err != nil {
 		return "bad-case"
@@ -280,7 +280,7 @@ func execC12CSV(t *hx.Toks) string {
 	if cont {
 		mode = "continue"
 	}
-	d, err := decoder.NewCSVDecoder(decoder.Params{"columns": cols, "prefix": string(prefix), "delimiter": string([]byte{byte(delim)}),
+	d, err := c12New(decoder.CSV, decoder.Params{"columns": cols, "prefix": string(prefix), "delimiter": string([]byte{byte(delim)}),
 		"invalid_line_mode": mode})
 	if err != nil {
 		return "bad-case"
@@ -329,7 +329,7 @@ func execC12JCut(t *hx.Toks) string {
 	if t.Err != nil || !t.Done() {
 		return "bad-case"
 	}
-	d, err := decoder.NewJsonDecoder(decoder.Params{"json_max_fields_size": m})
+	d, err := c12New(decoder.JSON, decoder.Params{"json_max_fields_size": m})
 	if err != nil {
 		return "bad-case"
 	}
@@ -347,7 +347,7 @@ func execC12JSON(t *hx.Toks) string {
 	if t.Err != nil || !t.Done() {
 		return "bad-case"
 	}
-	d, err := decoder.NewJsonDecoder(decoder.Params{})
+	d, err := c12New(decoder.JSON, decoder.Params{})
 	if err != nil {
 		return "bad-case"
 	}
